@@ -667,7 +667,11 @@ impl<'a> Ctx<'a> {
                     return Expr::Var(Ident::use_(n, Some(d), true, "var"));
                 }
                 let (l, fd) = labels[self.r.below(labels.len())].clone();
-                Expr::Field(Box::new(Expr::Var(Ident::use_(n, Some(d), true, "field-base"))), Ident::use_(l, Some(fd), true, "field-access"))
+                // Field resolution is type-directed and scoped-mode programs may be ill-typed
+                // (glas unifies distinct custom types silently), so the label is not judged
+                // here; well-typed field access is judged on the typed generator's programs.
+                let _ = fd;
+                Expr::Field(Box::new(Expr::Var(Ident::use_(n, Some(d), true, "field-base"))), Ident { text: l, bind: Bind::Plain, site: "field-access-untyped" })
             }
             14 => Expr::Tuple((0..self.r.range(1, 3)).map(|_| self.gen_expr(depth - 1, "tuple-elem")).collect()),
             15 => {
@@ -716,8 +720,10 @@ impl<'a> Ctx<'a> {
                 0 => Expr::Todo(None),
                 1 => Expr::Panic(None),
                 2 => {
-                    let m = self.with_core_off(|c| c.gen_operand(0, "todo-message"));
-                    Expr::Todo(Some(Box::new(m)))
+                    // glas models todo/panic as opaque MISSING nodes whose message is not
+                    // lowered; identifiers inside a message are outside the supported core
+                    // altogether, so only literal messages are generated.
+                    Expr::Todo(Some(Box::new(Expr::Str("not yet".into()))))
                 }
                 _ => Expr::BitArray("<<1, 2:size(8)>>".into()),
             },
@@ -924,7 +930,12 @@ impl<'a> Ctx<'a> {
 
     fn gen_lambda(&mut self, depth: usize) -> Expr {
         let n = self.r.below(3);
-        let (ps, locals) = self.gen_params(SymKind::LambdaParam, n, false, true);
+        let (ps, mut locals) = self.gen_params(SymKind::LambdaParam, n, false, true);
+        // Annotations on lambda parameters are not used by glas's inference (known gap,
+        // baseline test infer_annotated_lambda fails): they do not make a type evident.
+        for l in locals.iter_mut() {
+            l.adt = None;
+        }
         self.scopes.push(locals);
         let body = self.gen_block(depth);
         self.scopes.pop();
